@@ -486,6 +486,9 @@ func bvBin(op Op, a, b *Term) *Term {
 			return ConstBV(w, r)
 		}
 	}
+	if r := simplifyBvBinC10(op, a, b); r != nil { // term_c10.go: narrow urem, (x*c)/c
+		return r
+	}
 	// identities
 	switch op {
 	case OAdd:
